@@ -585,7 +585,16 @@ func (x *Exec) lookupHeap(s *State, k string) (*Term, bool) {
 
 // pendingHavoc marks a key as havoced although its sort is not known yet; resolved at first access.
 func (x *Exec) pendingHavoc(s *State, k string) {
-	s.Heap[k] = nil
+	if srt, ok := keySorts[k]; ok {
+		x.heapGet(s, k, srt) // declares the initial array, so that merges can refer to it
+		s.Heap[k] = x.Sc.Fresh("Hl_"+sanitize(k), srt)
+		return
+	}
+	if strings.HasPrefix(k, "C:") {
+		delete(s.Heap, k) // cell of a local not yet allocated: nothing to havoc
+		return
+	}
+	oos("loop writes heap key %s whose sort is not known before the loop", k)
 }
 
 // backEdge: invariant preservation and variant decrease.
